@@ -2,6 +2,7 @@ package ipnisync
 
 import (
 	"bytes"
+	"errors"
 	"io"
 	"net/http"
 	"net/url"
@@ -30,6 +31,8 @@ func vResp(status int, body []byte) *http.Response {
 type vStore struct {
 	m       map[string][]byte
 	commits int
+	// failCommits: that many commit attempts fail (a store that is briefly unavailable)
+	failCommits int
 }
 
 func vLsys(st *vStore) ipld.LinkSystem {
@@ -44,6 +47,10 @@ func vLsys(st *vStore) ipld.LinkSystem {
 	lsys.StorageWriteOpener = func(lc ipld.LinkContext) (io.Writer, ipld.BlockWriteCommitter, error) {
 		var buf bytes.Buffer
 		return &buf, func(l ipld.Link) error {
+			if st.failCommits > 0 {
+				st.failCommits--
+				return errors.New("model: store cannot commit right now")
+			}
 			st.m[l.Binary()] = append([]byte{}, buf.Bytes()...)
 			st.commits++
 			return nil
